@@ -157,15 +157,5 @@ def replay(v):
     from ..acc import Acc
     c = v["case"]
     a = Acc(ID, 0, 1, 600)
-    prog = c["prog"]
-    d, ns, src = build(prog, c["config"], c["is_async"], c.get("local_subs", False))
-    args = tuple(c["args"])
-    if c["is_async"]:
-        async def op():
-            return await d(*args)
-    else:
-        def op():
-            return d(*args)
-    res = H.run_controlled(op, prefix=tuple(v["prefix"]), is_async=c["is_async"])
-    compare(a, c, prog, args, res, ir.ref_eval(prog, args), src)
-    return a.violations, res.trace
+    from ..prog import replay_built
+    return replay_built(a, v)
